@@ -1,2 +1,2 @@
-import Hive.Model.KVTrace
-def main : IO Unit := Hive.Proto.run Hive.KV.tinit Hive.KV.tstepLine
+import Hive.Model.KVDrive
+def main : IO Unit := Hive.Proto.run Hive.KV.dinit Hive.KV.dstepLine
